@@ -186,7 +186,8 @@ class Integer(_PrimitiveType):
 
             if rhs == 0:
                 return Integer()
-            return Integer(int(lhs / rhs))
+            quotient = abs(lhs) // abs(rhs)
+            return Integer(-quotient if (lhs < 0) != (rhs < 0) else quotient)
         else:
             return NotImplemented
 
@@ -213,7 +214,8 @@ class Integer(_PrimitiveType):
             if rhs == 0:
                 return Integer()
 
-            return Integer(lhs - rhs * int(lhs / rhs))
+            remainder = abs(lhs) % abs(rhs)
+            return Integer(-remainder if lhs < 0 else remainder)
         else:
             return NotImplemented
 
